@@ -105,8 +105,30 @@ def m_next_if(eng, st, fr, t, name, rname, args):
         _ev(st, fr, t, "next_if", END, (False,))
         return mk_option(None)
     if head == UNKNOWN:
+        # an unknown rest of the stream: either it has ended, or it holds an unknown item - on which the predicate is run, so
+        # that what the predicate tests about the item (its variant) is known about the item that is handed out
         _ev(st, fr, t, "next_if", UNKNOWN, (snapshot(args[1]),))
-        return st.fresh(("next_if-unknown",))
+        out = []
+        s_end = eng.fork(st)
+        out.append((s_end, mk_option(None)))
+        item = st.fresh(("next_if-unknown-item",))
+        res = eng.call_closure(st, fr, args[1], [RefV(Cell(item, "next_if-item"))], t)
+        for s2, v in res:
+            if s2.outcome is not None:
+                out.append((s2, TOP))
+                continue
+            v = eng.resolve(s2, v)
+            f2 = s2.frames[-1]
+            if isinstance(v, K) and v.v:
+                _ev(s2, f2, t, "consume", UNKNOWN, ("next_if",))
+                s2.extra.setdefault("consumed", []).append(UNKNOWN)
+                s2.extra.pop("peekcell", None)
+                out.append((s2, mk_option(item)))
+            elif isinstance(v, K):
+                out.append((s2, mk_option(None)))
+            else:
+                out.append((s2, s2.fresh(("next_if-unknown",))))
+        return out
     cell = Cell(head, "next_if-item")
     res = eng.call_closure(st, fr, args[1], [RefV(cell)], t)
     out = []
